@@ -108,7 +108,14 @@ def make_group(rng, nt, n, threads, cache, dup_names=False, user_flux=False):
     # pool workers must stay serial whatever it says, in particular under a parent that already runs threaded
     if threads > 1 or rng.random() < 0.3:
         raw["parallel"]["num_threads"] = rng.choice([2, 4]) if threads > 1 else rng.choice([1, 2])
-    return {"raw": raw, "nt": nt, "n": n, "threads": threads, "cache": cache, "repeat": repeat, "dup": dup_names,
+    # an idealised set-up built programmatically: no reference origin, the towers carry their local position directly
+    # (TowerConfig(..., x=..., y=...) or tower.x = ... after construction, as the package's own manuscript scripts do)
+    local_xy = None
+    if rng.random() < 0.25:
+        dom.pop("ref_lat", None)
+        dom.pop("ref_lon", None)
+        local_xy = [(dist(1, 0.2 * dom["xmax"], 0.8 * dom["xmax"])[0], dist(1, 0.2 * dom["ymax"], 0.8 * dom["ymax"])[0]) for _ in range(nt)]
+    return {"raw": raw, "nt": nt, "n": n, "threads": threads, "cache": cache, "repeat": repeat, "dup": dup_names, "local_xy": local_xy,
             "explicit_halo": explicit_halo, "flux_seed": rng.randrange(1 << 30) if user_flux else None, "runs": []}
 
 
@@ -399,6 +406,9 @@ def run_group(impl, g, workdir):
     rc.NUM_THREADS = g["threads"]
     raw = g["raw"]
     cfg = cp.parse_config_dict(json.loads(json.dumps(raw)))
+    if g.get("local_xy"):
+        for tw, (x, y) in zip(cfg.towers, g["local_xy"]):
+            tw.x, tw.y = float(x), float(y)
     names = [t.name for t in cfg.towers]
     n = cfg.met.n_timesteps
     flux = None
